@@ -44,7 +44,7 @@ Definition clean_abs (s : list Z) : list Z := render_abs (fold_left clean_step (
 
 (* filepath.Abs with working directory cwd (rooted) *)
 Definition rooted (cwd s : list Z) : list Z :=
-  match s with 47 :: _ => s | _ => cwd ++ 47 :: s end.
+  match s with c :: _ => if c =? 47 then s else cwd ++ 47 :: s | [] => cwd ++ 47 :: s end.
 Definition abs_path (cwd s : list Z) : list Z := clean_abs (rooted cwd s).
 
 Definition pathpat : list Z := [37; 112; 97; 116; 104].   (* "%path" *)
@@ -68,13 +68,13 @@ Fixpoint split47 (s : list Z) : list (list Z) :=
   | c :: r => if c =? 47 then [] :: split47 r
               else match split47 r with e :: es => (c :: e) :: es | [] => [[c]] end
   end.
-Definition name_char (c : Z) : bool :=
+Definition pn_char (c : Z) : bool :=
   ((48 <=? c) && (c <=? 57)) || ((65 <=? c) && (c <=? 90)) || ((97 <=? c) && (c <=? 122))
   || (c =? 95) || (c =? 45) || (c =? 47) || (c =? 46).
-Definition valid_name (p : list Z) : bool :=
+Definition path_name_valid (p : list Z) : bool :=
   match p with [] => false | c :: _ => negb (c =? 47) end
   && negb (last p 0 =? 47)
-  && forallb name_char p
+  && forallb pn_char p
   && forallb (fun e => negb (name_eqb e [46]) && negb (name_eqb e [46; 46])) (split47 p).
 
 (* runs of slashes collapsed (b: the previous byte was a slash); all that Clean changes in a valid name *)
@@ -98,4 +98,4 @@ Definition find_model (L : lzone) (cwd f ext p : list Z) (files : list (list Z))
 (* regexpPathFindPathsWithSegments with a regular expression that matches every name *)
 Definition list_model (L : lzone) (cwd f ext : list Z) (files : list (list Z)) : list (list Z) :=
   flat_map (fun w => match decode_lz L (lister_format cwd f ext) w with
-                     | Some (q, _, _) => if valid_name q then [q] else [] | None => [] end) files.
+                     | Some (q, _, _) => if path_name_valid q then [q] else [] | None => [] end) files.
